@@ -89,7 +89,13 @@ func (t *Transcript) line(prefix string, format string, a ...any) {
 	t.w.WriteString(prefix)
 	t.w.WriteString(s)
 	t.w.WriteByte('\n')
+	if flushEveryLine {
+		t.w.Flush()
+	}
 }
+
+// with VERIF_FLUSH=1 every line reaches the file at once (for harnesses whose subject can kill the process)
+var flushEveryLine = os.Getenv("VERIF_FLUSH") == "1"
 func (t *Transcript) Case(n int, note string) { t.line("# case ", "%d %s", n, note) }
 func (t *Transcript) Op(format string, a ...any)   { t.line("> ", format, a...) }
 func (t *Transcript) Out(format string, a ...any)  { t.line("< ", format, a...) }
